@@ -23,7 +23,9 @@ type SleepReq struct {
 	D    time.Duration
 }
 
-func NewClock(startNs uint64) *Clock { return &Clock{ns: startNs} }
+func NewClock(startNs uint64) *Clock {
+	return &Clock{ns: startNs, Sleeps: make([]SleepReq, 0, 1024)}
+}
 
 //go:norace
 func (c *Clock) NowNs() uint64 { return c.ns }
@@ -43,21 +45,21 @@ func (c *Clock) AdvanceMs(d uint64) { c.ns += d * 1e6 }
 //go:norace
 func (c *Clock) Now() time.Time {
 	c.Reads++
-	noteClockRead(c.ns)
+	noteClockRead(c.ns, 2)
 	return time.Unix(0, int64(c.ns))
 }
 
 //go:norace
 func (c *Clock) CurrentTimeMillis() uint64 {
 	c.Reads++
-	noteClockRead(c.ns)
+	noteClockRead(c.ns, 0)
 	return c.ns / 1e6
 }
 
 //go:norace
 func (c *Clock) CurrentTimeNano() uint64 {
 	c.Reads++
-	noteClockRead(c.ns)
+	noteClockRead(c.ns, 1)
 	return c.ns
 }
 
